@@ -1149,6 +1149,86 @@ fn big_stream(ctx: &mut Ctx) {
 		wide!(Vec<Box<Vec<u8>>>, |i| Box::new(vec![i as u8; i % 3]), "Vec<Box<Vec<u8>>>");
 		wide!(Vec<(Arc<u16>, Box<()>)>, |i| (Arc::new(i as u16), Box::new(())), "Vec<(Arc<u16>,Box<()>)>");
 	}
+	// tuples whose `size_hint()` under-reports (nested heap data, wide compacts): every entry point,
+	// `Joiner::and` and `to_keyed_vec` on encodings of more than 256 bytes behind a small hint
+	{
+		use parity_scale_codec::{Joiner, KeyedVec};
+		macro_rules! long_tuple {
+			($v:expr, $ty:ty, $label:expr) => {{
+				let v: $ty = $v;
+				let seed = 0x7u64;
+				sinks_case(ctx, $label, &v, &format!("enc4 {} {}", <$ty>::ty(4), val_string(&v, false)), seed);
+				let r = catch_unwind(AssertUnwindSafe(|| (vec![0xaau8].and(&v), v.to_keyed_vec(&[0xaa]), v.using_encoded(|s| s.to_vec()))));
+				let mut expect = vec![0xaau8];
+				expect.extend_from_slice(&v.encode());
+				match r {
+					Ok((j, k, u)) if j == expect && k == expect && u[..] == expect[1..] => {},
+					Ok(_) => ctx.oracle_fail("C07", format!("{}: Joiner / KeyedVec / using_encoded differ from encode() ({} bytes)", $label, expect.len() - 1)),
+					Err(_) => ctx.oracle_fail("C01", format!("{}: using_encoded / Joiner / KeyedVec panicked on a value whose encoding is {} bytes", $label, expect.len() - 1)),
+				}
+			}};
+		}
+		long_tuple!((7u32, vec!["x".repeat(300)]), (u32, Vec<String>), "(u32, Vec<String>) long");
+		long_tuple!((0xabu8, [Compact(u64::MAX); 31]), (u8, [Compact<u64>; 31]), "(u8, [Compact<u64>; 31]) wide");
+		long_tuple!((1u8, vec![vec![7u8; 200], vec![8u8; 100]]), (u8, Vec<Vec<u8>>), "(u8, Vec<Vec<u8>>) long");
+		long_tuple!((vec![Some("y".repeat(257))], 2u16, true), (Vec<Option<String>>, u16, bool), "(Vec<Option<String>>, u16, bool) long");
+		long_tuple!(("z".repeat(255), 9u8), (String, u8), "(String, u8) 255");
+		long_tuple!(("z".repeat(256), 9u8), (String, u8), "(String, u8) 256");
+	}
+	// long vectors whose deep items come only after the first preallocation chunk: the depth needed
+	// is that of the deepest item wherever it sits
+	{
+		let mut v: Vec<Option<Box<u8>>> = vec![None; 2500];
+		v.push(Some(Box::new(7)));
+		v.push(None);
+		let bs = v.encode();
+		for limit in [0u32, 1, 2, 3] {
+			let r = catch_unwind(AssertUnwindSafe(|| {
+				let mut s = &bs[..];
+				let r = <Vec<Option<Box<u8>>>>::decode_with_depth_limit(limit, &mut s);
+				(r, s.len())
+			}));
+			let ans = match r {
+				Ok((Ok(x), rem)) => format!("ok {} {}", val_string(&x, true), rem),
+				Ok((Err(_), _)) => "err".into(),
+				Err(_) => "panic".into(),
+			};
+			ctx.emit("big-deep-tail", "Vec<Option<Box<u8>>>", &format!("limit {} {} {}", limit, <Vec<Option<Box<u8>>>>::ty(4), hex_or_dash(&bs)), &ans);
+			if (limit >= 2) != ans.starts_with("ok") {
+				ctx.oracle_fail("C11", format!("Vec<Option<Box<u8>>> of 2502 items whose only boxed item is the 2501st (nesting 2): depth limit {} gives {}", limit, &ans[..ans.len().min(20)]));
+			}
+		}
+		let mut w: Vec<Vec<Vec<u8>>> = vec![vec![]; 800];
+		w.push(vec![vec![1, 2]]);
+		let bs = w.encode();
+		for limit in [1u32, 2, 3] {
+			let ok = <Vec<Vec<Vec<u8>>>>::decode_with_depth_limit(limit, &mut &bs[..]).is_ok();
+			if ok != (limit >= 2) {
+				ctx.oracle_fail("C11", format!("Vec<Vec<Vec<u8>>> of 801 items whose only non-empty item is the last (nesting 2): depth limit {} gives ok={}", limit, ok));
+			}
+		}
+	}
+	// strings damaged exactly at 4 KiB / 16 KiB multiples: a multi-byte character cut short there and
+	// followed by ASCII only - `skip` must fail exactly like `decode`
+	for boundary in [4096usize, 8192, 12288, 16384, 32768] {
+		for lead in [&[0xc3u8][..], &[0xe2, 0x82], &[0xf0, 0x9f, 0x98], &[0xe2], &[0xf0]] {
+			let mut payload = vec![b'a'; boundary - lead.len()];
+			payload.extend_from_slice(lead);
+			payload.extend(std::iter::repeat(b'b').take(4200));
+			let mut bs = Compact(payload.len() as u32).encode();
+			bs.extend_from_slice(&payload);
+			bs.push(0x77);
+			let dec_ok = String::decode(&mut &bs[..]).is_ok();
+			let r = catch_unwind(AssertUnwindSafe(|| {
+				let mut s = &bs[..];
+				(String::skip(&mut s).is_ok(), s.len())
+			}));
+			if dec_ok || !matches!(r, Ok((false, _))) {
+				ctx.oracle_fail("C18", format!("a {}-byte string with a character cut short at byte offset {} followed by ASCII: decode ok={} skip={:?}", payload.len(), boundary, dec_ok, r.ok()));
+			}
+			ctx.count("big:string-skip-cases", 1);
+		}
+	}
 	// a long string (the Vec<u8> bulk path plus UTF-8 validation)
 	for n in [16383usize, 16384, 16385, 40000] {
 		let s: String = (0..n).map(|i| if i % 7 == 0 { 'é' } else { 'a' }).collect();
@@ -1439,6 +1519,25 @@ pub fn run_mem_type<T: Cat + DecodeWithMemTracking>(ctx: &mut Ctx, name: &'stati
 		for l in limits {
 			let (ans, _) = mem_run::<T>(&bs, l);
 			ctx.emit("mem", name, &format!("mem {} {} {}", l, ty, hex_or_dash(&bs)), &ans);
+			// oracle (C18/C12): skipping under the same limit succeeds exactly when decoding does
+			{
+				let r = catch_unwind(AssertUnwindSafe(|| {
+					let mut s = &bs[..];
+					let mut mi = MemTrackingInput::new(&mut s, l);
+					let ok = T::skip(&mut mi).is_ok();
+					(ok, s.len())
+				}));
+				let skip_ans = match r {
+					Ok((true, rem)) => format!("ok {}", rem),
+					Ok((false, _)) => "err".to_string(),
+					Err(_) => "panic".to_string(),
+				};
+				let dec_ok = ans.starts_with("ok");
+				let agrees = if dec_ok { ans.split(" used=").next().map_or(false, |a| a.ends_with(&skip_ans[2..])) && skip_ans.starts_with("ok") } else { skip_ans == "err" };
+				if !agrees {
+					ctx.oracle_fail("C18", format!("{}: under memory limit {} skip gives {} but decode gives {} on {}", name, l, skip_ans, &ans[..ans.len().min(50)], hex_or_dash(&bs[..bs.len().min(40)])));
+				}
+			}
 			if unl.starts_with("ok") {
 				// oracle (C12): single threshold U
 				if l > u && !ans.starts_with(&unl) {
@@ -1678,8 +1777,66 @@ fn probe_ops_case(ctx: &mut Ctx, rng: &mut Rng) {
 	}
 }
 
+/// CountedInput over MemTrackingInput (small limits) over the probe: a refused announcement must
+/// not change how later reads are counted. And single reads larger than 16 KiB over data that
+/// covers only part of them.
+fn probe_refusal_case(ctx: &mut Ctx, rng: &mut Rng) {
+	let len = rng.below(40) as usize;
+	let data: Vec<u8> = (0..len).map(|_| rng.below(256) as u8).collect();
+	let ops = gen_probe_ops(rng, len);
+	let limit = [0usize, 1, 100, 3000, 6000][rng.below(5) as usize];
+	let mut probe = ProbeInput { data: &data, pos: 0, mode: ('x', 0), short: false, log: vec![] };
+	let mut out = vec![];
+	{
+		let mut mi = MemTrackingInput::new(&mut probe, limit);
+		let mut ci = CountedInput::new(&mut mi);
+		for op in &ops {
+			let r = apply_op(&mut ci, op);
+			out.push(format!("{}:{}", r, ci.count()));
+		}
+	}
+	// oracle (C19): the count is the position of the wrapped input, refusals or not
+	if let Some(last) = out.last() {
+		let c: usize = last.rsplit(':').next().unwrap().parse().unwrap();
+		if c != probe.pos {
+			ctx.oracle_fail("C19", format!("CountedInput over a memory-limited input (limit {}): count() = {} but the input delivered {} bytes after ops {:?}", limit, c, probe.pos, ops));
+		}
+	}
+	let ans = format!("{} | {} {}", out.join(" "), probe.data.len() - probe.pos, probe.log.join(","));
+	ctx.emit("countops3", "CountedInput<MemTrackingInput<Probe>>", &format!("cops3 {} {} {}", limit, hex_or_dash(&data), ops.join(" ")), &ans);
+}
+
+fn probe_big_reads(ctx: &mut Ctx) {
+	for (have, ask) in [(20000usize, 30000usize), (16384, 16385), (16383, 20000), (40000, 32768), (40000, 32769), (33000, 32769), (50000, 50000)] {
+		let data: Vec<u8> = (0..have).map(|i| (i * 13 % 251) as u8).collect();
+		for short in [false, true] {
+			let mut probe = ProbeInput { data: &data, pos: 0, mode: ('x', 0), short, log: vec![] };
+			let (ok, c) = {
+				let mut ci = CountedInput::new(&mut probe);
+				let mut buf = vec![0u8; ask];
+				let ok = ci.read(&mut buf).is_ok();
+				let _ = ci.read_byte();
+				(ok, ci.count())
+			};
+			let expect: u64 = if ask <= have { ask as u64 + if have > ask { 1 } else { 0 } } else if short { 0 } else { 1 };
+			if ok != (ask <= have) || c != expect {
+				ctx.oracle_fail("C19", format!("CountedInput: one read of {} bytes over an input holding {} ({}), then read_byte: ok={} count()={} expected count {}", ask, have, if short { "reader-like" } else { "slice-like" }, ok, c, expect));
+			}
+			ctx.count("countops:big-reads", 1);
+		}
+	}
+}
+
 fn wrapops_stream(ctx: &mut Ctx) {
 	let mut rng = Rng::new(ctx.seed ^ 0x0B5);
+	probe_big_reads(ctx);
+	{
+		let mut prng = Rng::new(ctx.seed ^ 0x9B0C);
+		let n = if ctx.tier_thorough { 20_000 } else { 2_000 };
+		for _ in 0..n {
+			probe_refusal_case(ctx, &mut prng);
+		}
+	}
 	{
 		let mut prng = Rng::new(ctx.seed ^ 0x9B0B);
 		let n = if ctx.tier_thorough { 40_000 } else { 4_000 };
@@ -1870,6 +2027,34 @@ fn bulk_for<T: Cat + Clone + DecodeAll + DecodeLimit>(ctx: &mut Ctx, name: &'sta
 		}
 		for x in xs.iter().take(n - n / 2) {
 			dq.push_back(x.clone());
+		}
+		// a wrapped deque with a SHORT first slice and a long second one, and the other way round
+		for front in [1usize, 3] {
+			if n > front + 2 {
+				let mut d2: VecDeque<T> = VecDeque::with_capacity(n + 1);
+				for x in xs.iter().skip(front) {
+					d2.push_back(x.clone());
+				}
+				for x in xs.iter().take(front).rev() {
+					d2.push_front(x.clone());
+				}
+				let logical: Vec<T> = d2.iter().cloned().collect();
+				if d2.encode() != logical.encode() {
+					ctx.oracle_fail("C07", format!("{}: VecDeque of {} elements split {}+{} over the ring buffer does not encode like its contents", name, n, d2.as_slices().0.len(), d2.as_slices().1.len()));
+				}
+				let mut d3: VecDeque<T> = VecDeque::with_capacity(n + 1);
+				for x in xs.iter().take(n - front) {
+					d3.push_back(x.clone());
+				}
+				for _ in 0..front {
+					let x = d3.pop_front().unwrap();
+					d3.push_back(x);
+				}
+				let logical: Vec<T> = d3.iter().cloned().collect();
+				if d3.encode() != logical.encode() {
+					ctx.oracle_fail("C07", format!("{}: VecDeque of {} elements split {}+{} over the ring buffer does not encode like its contents", name, n - front, d3.as_slices().0.len(), d3.as_slices().1.len()));
+				}
+			}
 		}
 		// logical content of dq = reversed(second-half-from-rev) ++ first (n - n/2) elements
 		let dq_logical: Vec<T> = dq.iter().cloned().collect();
